@@ -114,7 +114,12 @@ func c06UnixtimeRun(c *core.Ctx) { c06UnixtimeOver(c, nil) }
 func c06UnixtimeOver(c *core.Ctx, only *c06UnixCase) {
 	nums := c06UnixNums()
 	dir := core.Scratch("c06unixtime")
-	const stmt = "SELECT DATETIME(@x), DATETIME(@x, 'UTC'), DATETIME(@x, 'Asia/Tokyo'), FLOAT(DATETIME(@x)), INTEGER(DATETIME(@x)), DATETIME(@x) < DATETIME(@y), DATETIME(@x) >= DATETIME(@y), DATETIME(@x) = DATETIME(@y);"
+	other := "Asia/Tokyo"
+	if _, err := time.LoadLocation(other); err != nil {
+		c.Observe("unixtime_family_unavailable_time_zones", other)
+		other = "UTC"
+	}
+	stmt := "SELECT DATETIME(@x), DATETIME(@x, 'UTC'), DATETIME(@x, '" + other + "'), FLOAT(DATETIME(@x)), INTEGER(DATETIME(@x)), DATETIME(@x) < DATETIME(@y), DATETIME(@x) >= DATETIME(@y), DATETIME(@x) = DATETIME(@y);"
 	var idx int64
 	for _, zone := range []string{"UTC", "Asia/Tokyo"} {
 		if only != nil && only.Zone != zone {
@@ -172,7 +177,7 @@ func c06UnixtimeOver(c *core.Ctx, only *c06UnixCase) {
 					continue
 				}
 				row := drv.Rows(r.Views[0])[0]
-				for k, form := range []string{"DATETIME(x)", "DATETIME(x, 'UTC')", "DATETIME(x, 'Asia/Tokyo')"} {
+				for k, form := range []string{"DATETIME(x)", "DATETIME(x, 'UTC')", "DATETIME(x, '" + other + "')"} {
 					if d := row[k].D.Sub(want); row[k].K != rv.Date || d > time.Microsecond || d < -time.Microsecond {
 						c.Violate(sig("DATETIME-of-a-number-is-not-the-instant-that-many-seconds-from-the-epoch"),
 							fmt.Sprintf("session time zone %s: %s with x = %s is %s; the unix time %s is the instant %s",
